@@ -82,7 +82,7 @@ def _case(draw):
             if o['op'] in ('compile', 'update'):
                 o = dict(o, op=draw(st.sampled_from(SETTING_OPS)))
                 o = draw(_op_of(o['op']))
-            o['p'] = draw(st.sampled_from([1, 6, 1, 11, 4, 0, 3, 7, 9]))
+            o['p'] = draw(st.sampled_from([1, -1, 6, 1, 11, -1, 4, 0, 3, 7, 9]))     # -1: the last parameter, i.e. the observation's own
             ops.append(o)
         ops.append({'op': 'compile', 'p': 0})
         if draw(st.booleans()):
